@@ -390,6 +390,7 @@ func checkC04(p *Prog, res *Result, tier string) {
 	res.rule("C04-R2", "in the event sink every path with a non-zero revision reaches the slot store (or aborts)", 1)
 	res.rule("C04-R3", "in the sequencer every path from a consumed slot to the next slot load passes through TSO.Commit of that slot's revision and through the store that clears the slot", 2)
 	res.rule("C04-R4", "at every sink call the revision comes from an allocator call that already returned, and valid is exactly (err == nil) for the error of that same call", 4)
+	res.rule("C04-R6", "neither the sequencer nor the hub it feeds can block itself: no lock is acquired while the same goroutine holds it (C19-R5)", 1)
 	res.rule("C04-R5", "TSO.Commit / Backend.SetCurrentRevision are called only from the sequencer, the leader-start callback, the follower revision sync and the etcd shim pass-through", 3)
 
 	a := &allocInfo{p: p, r: r}
@@ -638,6 +639,9 @@ func checkC04(p *Prog, res *Result, tier string) {
 
 	// R5: who may advance
 	checkWhoMayAdvance(p, r, res, "C04-R5")
+	// R6: no self-deadlock in the pipeline that resolves revisions (C19-R5)
+	checkSelfDeadlock(p, p.lockContext(), res, "C04-R6")
+
 }
 
 func boolToInt(b bool) int {
